@@ -964,5 +964,19 @@ class Models:
             return s.RAISED
         return None
 
+    def x__ZNSt9basic_iosIcSt11char_traitsIcEE10exceptionsESt12_Ios_Iostate(s, st, stack, work, args, ins):
+        # exceptions(mask): _M_exception = mask; clear(rdstate())  (out of line at -O0)
+        this = args[0]; e = s.eng
+        e.store_raw(st, Ptr(this.obj, e.A.off_add(st, this.off, STATE_OFF - 4, 64, 1)), 4, args[1])
+        cur = e.load_raw(st, Ptr(this.obj, e.A.off_add(st, this.off, STATE_OFF, 64, 1)), 4)
+        if s.mask_hit(st, this, cur):
+            e.raise_exc(st, stack, s.IOS_FAILURE, from_call=ins)
+            return s.RAISED
+        return None
+
+    def x__ZNKSt9basic_iosIcSt11char_traitsIcEE10exceptionsEv(s, st, stack, work, args, ins):
+        this = args[0]; e = s.eng
+        return e.load_raw(st, Ptr(this.obj, e.A.off_add(st, this.off, STATE_OFF - 4, 64, 1)), 4)
+
     def x__ZNSt8ios_base4InitC1Ev(s, st, stack, work, args, ins): return None
     def x__ZNSt8ios_base4InitD1Ev(s, st, stack, work, args, ins): return None
